@@ -9,6 +9,7 @@ import (
 	"regexp"
 	re "regexp"
 	"strings"
+	"sync/atomic"
 	"time"
 
 	"errors"
@@ -66,8 +67,12 @@ func getShellCommandPlaceHolderRegex() *re.Regexp {
 
 var letters = []byte("abcdefghijklmnopqrstuvwxyz0123456789")
 
+// randSeqCounter makes sure that IDs created within the same clock tick
+// (which happens on systems with a coarse clock) are still seeded differently
+var randSeqCounter int64
+
 func randSeqLC(n int) string {
-	aseed := rand.NewSource(time.Now().UnixNano())
+	aseed := rand.NewSource(time.Now().UnixNano() + atomic.AddInt64(&randSeqCounter, 1))
 	arand := rand.New(aseed)
 	b := make([]byte, n)
 	for i := range b {
